@@ -3,27 +3,46 @@ import FlexModel.Net.Stack
 namespace FlexModel.Net
 
 /-- deliver one frame sent by `sender` to every other station, in station order -/
-def floodStep (w : World) (sts : List Station) (sender : Addr) (p : Pkt) : List Station × List (Addr × Pkt) :=
+def floodStep (w : World) (down : List Addr) (sts : List Station) (sender : Addr) (p : Pkt) :
+    List Station × List (Addr × Pkt) :=
   sts.foldl (fun (acc : List Station × List (Addr × Pkt)) s =>
-    if s.addr = sender then (acc.1 ++ [s], acc.2)
+    if s.addr = sender ∨ down.contains s.addr then (acc.1 ++ [s], acc.2)
     else
       let r := receive w s p
       (acc.1 ++ [r.1], acc.2 ++ r.2.map (fun q => (s.addr, q)))) ([], [])
 
-def flood (w : World) : Nat → List Station → List (Addr × Pkt) → List Station
+def flood (w : World) (down : List Addr) : Nat → List Station → List (Addr × Pkt) → List Station
   | 0, sts, _ => sts
   | _ + 1, sts, [] => sts
   | fuel + 1, sts, (snd, p) :: q =>
-    let r := floodStep w sts snd p
-    flood w fuel r.1 (q ++ r.2)
+    let r := floodStep w down sts snd p
+    flood w down fuel r.1 (q ++ r.2)
 
 /-- a request at station `i` followed by the complete flood it induces -/
-def netRequest (w : World) (sts : List Station) (i : Addr) (r : Req) : List Station :=
+def netRequest (w : World) (down : List Addr) (sts : List Station) (i : Addr) (r : Req) : List Station :=
   match sts.find? (fun s => s.addr = i) with
   | none => sts
   | some s =>
     let x := request s r
     let sts1 := sts.map (fun t => if t.addr = i then x.1 else t)
-    flood w 100000 sts1 (x.2.map (fun q => (i, q)))
+    flood w down 100000 sts1 (x.2.map (fun q => (i, q)))
+
+/-- expiry of the location-service retransmit timer at station `i` for a lookup of `de` that is still pending:
+the LS request is sent again with a fresh sequence number (`_ls_retransmit`); no effect when nothing is pending -/
+def lsRetransmit (s : Station) (de : Addr) : Station × List Pkt :=
+  match lookupPending s.pending de with
+  | none => (s, [])
+  | some _ =>
+    let sn := s.sn + 1
+    ({ s with sn := sn },
+      [{ so := s.addr, soPos := s.pos, sn := sn, kind := .lsReq de, btpB := false, rhl := s.defaultHops, data := [] }])
+
+def netRetransmit (w : World) (down : List Addr) (sts : List Station) (i de : Addr) : List Station :=
+  match sts.find? (fun s => s.addr = i) with
+  | none => sts
+  | some s =>
+    let x := lsRetransmit s de
+    let sts1 := sts.map (fun t => if t.addr = i then x.1 else t)
+    flood w down 100000 sts1 (x.2.map (fun q => (i, q)))
 
 end FlexModel.Net
